@@ -1,0 +1,37 @@
+//go:build verif
+
+// Verification shim (property C11): read-only view of the version counter, the
+// transaction anchors and the two removal queues. Add-only, compiled only with
+// -tags verif.
+package config
+
+import "time"
+
+// VerifC11State is a copy of what the accessor holds besides the retained
+// policies (see VerifC11Retained).
+type VerifC11State struct {
+	CurrentVersion int
+	Anchors        map[TxnID]int // txnVersions
+	TxnQueueAt     []time.Time   // txnVersionsVacuum entries, in queue order
+	TxnQueueKeys   []TxnID
+	VerQueueAt     []time.Time // policiesVersionsVacuum entries, in queue order
+	VerQueueKeys   []int
+}
+
+// VerifC11State reads the accessor (under its own locks, one after the other).
+func (txnPoliciesAccessor *TxnPoliciesAccessor) VerifC11State() VerifC11State {
+	res := VerifC11State{Anchors: map[TxnID]int{}} //nolint:exhaustruct
+	txnPoliciesAccessor.mutex.RLock()
+	res.CurrentVersion = int(txnPoliciesAccessor.currentVersion)
+	for txnID, version := range txnPoliciesAccessor.txnVersions {
+		res.Anchors[txnID] = int(version)
+	}
+	txnPoliciesAccessor.mutex.RUnlock()
+	res.TxnQueueAt, res.TxnQueueKeys = txnPoliciesAccessor.txnVersionsVacuum.VerifC11Entries()
+	at, versions := txnPoliciesAccessor.policiesVersionsVacuum.VerifC11Entries()
+	res.VerQueueAt = at
+	for _, version := range versions {
+		res.VerQueueKeys = append(res.VerQueueKeys, int(version))
+	}
+	return res
+}
